@@ -274,6 +274,18 @@ Theorem C10_range_refuted_D26 :
      scan_arg_vals no_oracle no_oracle text 6 = Ok (wrap_run, [])).
 Proof. exact D26_witness. Qed.
 
+(* D32 (fixed in the repository): the checker searched the text of a preceding
+   array for the ellipsis of "a preceding range"; "[1 ... 6 9] 9 ... 13" (what
+   the printer writes for [1 2 3 4 5 6 9] 9 10 11 12 13) was rejected *)
+Theorem C10_roundtrip_refuted_D32 :
+  (exists w, print_arg_vals opts_c arr_then_run 0 = Some (arr_then_run_text, w)) /\
+  chk_l1_D32 arr_then_run_text (skipn 14 arr_then_run_text) = Some (skipn 7 arr_then_run_text) /\
+  chk_l1 arr_then_run_text (skipn 14 arr_then_run_text) = Some arr_then_run_text /\
+  count_printed_arg_vals no_oracle no_oracle arr_then_run_text = Ok (true, 8) /\
+  (exists slots, scan_arg_vals no_oracle no_oracle arr_then_run_text 8 = Ok (slots, []) /\
+                 length slots = 8%nat).
+Proof. exact D32_witness. Qed.
+
 (* the hypotheses are satisfiable by a list that needs a line break, a string
    broken in two and an escaped quote *)
 Theorem C10_nonvacuous :
